@@ -2,6 +2,7 @@ import SspModel.Real
 import SspModel.Generated.Formulas
 import SspModel.Generated.Constants
 import SspModel.Model.Life
+import SspModel.Model.Sev
 import SspModel.Lemmas.Bridge.Basic
 /-!
 # Bridge (Sev): lifetimes, turn-off mass and sweep speed of `EvolvedMF` (evolve_mf.py `compute_tms`, `compute_mto`, `_derivs_sev`)
@@ -16,5 +17,36 @@ theorem gen_dmdt_sev (a0 a1 a2 t : ℝ) : Generated.dmdt_sev a0 a1 a2 t = dmdtAb
 theorem gen_tms_main (a0 a1 a2 m : ℝ) : Generated.tms_main a0 a1 a2 m = tms a0 a1 a2 m := rfl
 theorem gen_mto_main (a0 a1 a2 t : ℝ) :
     (if Generated.mto_main_cond a0 t then some (Generated.mto_main_fin a0 a1 a2 t) else none) = mto a0 a1 a2 t := rfl
+
+/-- the flux of the turn-off bin: the model's `sevDNdm` is the source's `Aj * mto ** alphaj` with `Aj = Nj / Pk(alphaj, 1, m1, mto)`
+    under the source's "avoid hitting the bin edge" condition -/
+theorem gen_sevDNdm (nmin Nj aj m1 mto : ℝ) :
+    sevDNdm nmin Nj aj m1 mto =
+      if Generated.sev_active mto m1 Nj nmin then
+        (match Pk aj 1 m1 mto with
+         | some p => (Generated.sev_dNdm (Generated.sev_Aj Nj p) mto aj, true)
+         | none => (0, false))
+      else (0, true) := by
+  have hact : Generated.sev_active mto m1 Nj nmin = (lt m1 mto && lt nmin Nj) := rfl
+  rw [hact]
+  unfold sevDNdm
+  by_cases h : (lt m1 mto && lt nmin Nj) = true
+  · rw [if_pos h, if_pos h]
+    simp only [Generated.sev_dNdm, Generated.sev_Aj, real_zero, real_one]
+    cases Pk aj 1 m1 mto <;> rfl
+  · rw [if_neg h, if_neg h]
+    simp only [real_zero]
+
+/-- the entries written by `_derivs_sev`: `dNdt`, the two deposits, and the condition under which a deposit is made -/
+theorem gen_sev_entries (dNdm dmdt dNdt mrem frem : ℝ) :
+    Generated.sev_dNdt dNdm dmdt = -dNdm * dmdt ∧ Generated.sev_dNr dNdt frem = -dNdt * frem ∧
+    Generated.sev_dMr mrem dNdt frem = -mrem * dNdt * frem ∧
+    Generated.sev_gate mrem dNdt = (lt dNdt 0 && lt 0 mrem) := by
+  refine ⟨rfl, rfl, rfl, ?_⟩
+  rw [Generated.sev_gate, Bool.and_comm]; simp only [real_zero]
+
+/-- the retention fraction is still read from the per-class table `self._frem[cls_rem]` (the translator refuses any other source) -/
+theorem gen_frem_is_table_entry (x : ℝ) : Generated.sev_frem_is_table_entry x = 1 := by
+  simp only [Generated.sev_frem_is_table_entry, real_one]
 
 end Bridge
